@@ -20,14 +20,24 @@ VERUS_TIMEOUT = int(os.environ.get('VERIF_VERUS_TIMEOUT', '600'))
 
 
 def sh(cmd, timeout=None, cwd=None, env=None):
+    """run a command in its own process group; on timeout the whole group is killed (a killed verus would otherwise leave
+    its z3 children running)"""
+    import signal
     t0 = time.time()
+    p = subprocess.Popen(cmd, stdout=subprocess.PIPE, stderr=subprocess.PIPE, text=True, cwd=cwd, env=env, start_new_session=True)
     try:
-        p = subprocess.run(cmd, capture_output=True, text=True, timeout=timeout, cwd=cwd, env=env)
-        return p.returncode, p.stdout, p.stderr, time.time() - t0
-    except subprocess.TimeoutExpired as e:
-        so = e.stdout.decode() if isinstance(e.stdout, bytes) else (e.stdout or '')
-        se = e.stderr.decode() if isinstance(e.stderr, bytes) else (e.stderr or '')
-        return 124, so, se, time.time() - t0
+        so, se = p.communicate(timeout=timeout)
+        return p.returncode, so, se, time.time() - t0
+    except subprocess.TimeoutExpired:
+        try:
+            os.killpg(p.pid, signal.SIGKILL)
+        except OSError:
+            pass
+        try:
+            so, se = p.communicate(timeout=10)
+        except Exception:
+            so, se = '', ''
+        return 124, so or '', se or '', time.time() - t0
 
 
 class Undecided(Exception):
@@ -41,7 +51,7 @@ def expand(features=''):
     return out.strip().splitlines()[-1]
 
 
-def run_verus(path, which, threads=8, extra=()):
+def run_verus(path, which, threads=8, extra=(), timeout=None):
     """which: 'A' (root module, default options) | 'B' (module poly, macro_finder)"""
     cmd = ['verus', path, '--output-json', '--time', '--num-threads', str(threads)]
     if which == 'A':
@@ -50,7 +60,7 @@ def run_verus(path, which, threads=8, extra=()):
         cmd += ['--verify-only-module', 'poly', '--smt-option', 'smt.macro_finder=true']
     cmd += list(extra)
     cmd += ['--', '--error-format=json']
-    rc, out, err, wall = sh(cmd, timeout=VERUS_TIMEOUT, cwd=os.path.dirname(path))
+    rc, out, err, wall = sh(cmd, timeout=timeout or VERUS_TIMEOUT, cwd=os.path.dirname(path))
     res = {'cmd': ' '.join(cmd), 'rc': rc, 'wall_s': round(wall, 2), 'diags': [], 'json': None, 'raw_err': err}
     try:
         res['json'] = json.loads(out)
